@@ -66,15 +66,16 @@ let () =
         let bytes = Bytes.of_string (let l = String.length hex / 2 in String.init l (fun i -> Char.chr (int_of_string ("0x" ^ String.sub hex (2 * i) 2)))) in
         let len = Bytes.length bytes in
         let star = try Some (Bytes.rindex bytes '*') with Not_found -> None in
+        let b0 = if len > 0 && Bytes.get bytes 0 = '\\' then (try Bytes.index_from bytes 1 '\\' + 2 with Not_found -> 1) else 1 in
         let h1 = ref 2166136261 and h2 = ref 0x9747b28c in
         let hexd = "0123456789ABCDEF" in
         for y = 0 to 255 do
           for z = 0 to 255 do
             Bytes.set bytes p1 (Char.chr y); Bytes.set bytes p2 (Char.chr z);
             (if fix = "1" then match star with
-              | Some s when s + 2 < len && s >= 1 ->
+              | Some s when s + 2 < len && s >= b0 ->
                 let x = ref 0 in
-                for i = 1 to s - 1 do x := !x lxor Char.code (Bytes.get bytes i) done;
+                for i = b0 to s - 1 do x := !x lxor Char.code (Bytes.get bytes i) done;
                 Bytes.set bytes (s + 1) hexd.[!x lsr 4]; Bytes.set bytes (s + 2) hexd.[!x land 15]
               | _ -> ());
             let line = List.init len (fun i -> n_of_int (Char.code (Bytes.get bytes i))) in
